@@ -42,6 +42,10 @@ type Ctl struct {
 	BirthPoints map[string]bool
 	// ExitPoints are the last points of controlled goroutines (they end after them).
 	ExitPoints map[string]bool
+	// ParkPoints announce that the goroutine is about to block on something outside the controller
+	// (a channel of the code under test); it does not count as running until its next hook point.
+	ParkPoints map[string]bool
+	parked     map[uint64]bool
 	// NewRole names a goroutine first seen at a birth point.
 	NewRole func(point string, obj any) string
 	// OnPass is called (with the controller lock held) for every pass-through point.
@@ -52,7 +56,8 @@ type Ctl struct {
 
 func New() *Ctl {
 	c := &Ctl{waiting: map[uint64]*Waiter{}, roles: map[uint64]string{}, steps: map[uint64]int{},
-		Pass: map[string]bool{}, SpawnPoints: map[string]bool{}, BirthPoints: map[string]bool{}, ExitPoints: map[string]bool{}}
+		Pass: map[string]bool{}, SpawnPoints: map[string]bool{}, BirthPoints: map[string]bool{}, ExitPoints: map[string]bool{},
+		ParkPoints: map[string]bool{}, parked: map[uint64]bool{}}
 	c.cond = sync.NewCond(&c.mu)
 	return c
 }
@@ -99,6 +104,20 @@ func (c *Ctl) hook(point string, obj any, arg any, filter bool) {
 		}
 	}
 	c.steps[gid]++
+	if c.parked[gid] {
+		delete(c.parked, gid)
+		c.running++
+	}
+	if c.ParkPoints[point] {
+		if c.OnPass != nil {
+			c.OnPass(role, point, obj, arg)
+		}
+		c.parked[gid] = true
+		c.running--
+		c.cond.Broadcast()
+		c.mu.Unlock()
+		return
+	}
 	if c.ExitPoints[point] {
 		if c.OnPass != nil {
 			c.OnPass(role, point, obj, arg)
@@ -308,4 +327,26 @@ func (c *Ctl) LiveRoles(prefix string) int {
 		}
 	}
 	return n
+}
+
+// FindWait is Find with patience: a goroutine woken by the previous step (through a channel of the
+// code under test) may still be on its way to its hook point.
+func (c *Ctl) FindWait(role string, patience time.Duration) *Waiter {
+	deadline := time.Now().Add(patience)
+	for {
+		if w := c.Find(role); w != nil {
+			return w
+		}
+		if time.Now().After(deadline) {
+			return nil
+		}
+		time.Sleep(200 * time.Microsecond)
+	}
+}
+
+// Parked reports how many goroutines are blocked outside the controller.
+func (c *Ctl) Parked() int {
+	c.mu.Lock()
+	defer c.mu.Unlock()
+	return len(c.parked)
 }
